@@ -38,16 +38,166 @@ func ruleR01g(c *Ctx) {
 	if p := c.SSAPkg(pkgMachine); p != nil {
 		zero, _ = p.Members["Zero"].(*ssa.Global)
 	}
+	coreDone := map[*ssa.Function]bool{}
 	for _, name := range []string{"Take", "TakeMax"} {
 		fn := c.MustFn(rule, pkgMachine, "Funding."+name)
 		if fn == nil {
 			continue
 		}
-		fundingSplit(c, rule, fn, name, amountF, accountF, partsF, zero, name == "Take")
+		if len(loopHeads(fn)) > 0 {
+			fundingSplit(c, rule, fn, name, amountF, accountF, partsF, zero, name == "Take", -1)
+			continue
+		}
+		// a wrapper around a shared splitting helper (`result, remainder, left := f.takeUpTo(amount)`)
+		var coreCall *ssa.Call
+		allCalls(fn, func(ci ssa.CallInstruction) {
+			call, ok := ci.(*ssa.Call)
+			if !ok {
+				return
+			}
+			g := staticCallee(call)
+			if g == nil || fnPkgPath(g) != pkgMachine || len(loopHeads(g)) == 0 || g.Signature.Results().Len() < 2 {
+				return
+			}
+			if isNamed(g.Signature.Results().At(0).Type(), pkgMachine, "Funding") && isNamed(g.Signature.Results().At(1).Type(), pkgMachine, "Funding") {
+				coreCall = call
+			}
+		})
+		if coreCall == nil {
+			c.undecided(rule, "Funding."+name+":loop-structure", fn.Pos(), "no loop over the parts and no call of a splitting helper found")
+			continue
+		}
+		core := staticCallee(coreCall)
+		leftIdx := -1
+		for i := 2; i < core.Signature.Results().Len(); i++ {
+			if strings.HasSuffix(core.Signature.Results().At(i).Type().String(), "machine.MonetaryInt") {
+				leftIdx = i
+			}
+		}
+		if !coreDone[core] {
+			coreDone[core] = true
+			fundingSplit(c, rule, core, core.Name(), amountF, accountF, partsF, zero, false, leftIdx)
+		}
+		fundingWrapper(c, rule, fn, name, coreCall, leftIdx, amountF, accountF, partsF, zero, name == "Take")
 	}
 }
 
-func fundingSplit(c *Ctx, rule string, fn *ssa.Function, name string, amountF, accountF, partsF *types.Var, zero *ssa.Global, needExact bool) {
+// fundingWrapper: Take/TakeMax written as a wrapper of a splitting helper: the two results are the helper's (plus
+// at most a zero amount), the helper is given the funding and the requested amount, and (Take) success lies behind
+// the guard `what the helper could not cover = 0`.
+func fundingWrapper(c *Ctx, rule string, fn *ssa.Function, name string, coreCall *ssa.Call, leftIdx int, amountF, accountF, partsF *types.Var, zero *ssa.Global, needExact bool) {
+	obl := newOblSet(c, rule)
+	defer obl.flush()
+	key := func(s string) string { return "Funding." + name + ":" + s }
+	kPass, kEpi := key("hands-out-the-split-of-the-helper"), key("success-only-when-nothing-remains")
+	obl.expect(kPass, fn.Pos(), "the helper splits this funding for the requested amount; its two results are returned, plus at most a zero amount")
+	if needExact {
+		obl.expect(kEpi, fn.Pos(), "a success return lies behind the guard `uncovered amount = 0`")
+	}
+	args := coreCall.Call.Args
+	if len(args) < 2 || stripLoadOfParamCell(args[0]) != ssa.Value(fn.Params[0]) && descr(args[0], 0) != fn.Params[0].Name() || args[1] != ssa.Value(fn.Params[1]) {
+		obl.violate(kPass, coreCall.Pos(), "the splitting helper is not applied to this funding and the requested amount", nil)
+	}
+	if needExact && leftIdx < 0 {
+		obl.violate(kEpi, coreCall.Pos(), "the splitting helper does not report what it could not cover", nil)
+		return
+	}
+	var left aff
+	var ext [2]ssa.Value
+	for _, r := range *coreCall.Referrers() {
+		if ex, ok := r.(*ssa.Extract); ok {
+			if ex.Index == leftIdx {
+				left = affSym(descr(ex, 0))
+			}
+			if ex.Index < 2 {
+				ext[ex.Index] = ex
+			}
+		}
+	}
+	// the two result locals, by return position, must be initialised from the helper's results
+	var resLocal [2]*ssa.Alloc
+	direct := [2]bool{}
+	for _, b := range fn.Blocks {
+		if r, ok := b.Instrs[len(b.Instrs)-1].(*ssa.Return); ok && len(r.Results) >= 2 {
+			if len(r.Results) > 2 && !isNilConst(r.Results[len(r.Results)-1]) {
+				continue
+			}
+			for k := 0; k < 2; k++ {
+				if r.Results[k] == ext[k] && ext[k] != nil {
+					direct[k] = true
+					continue
+				}
+				if u, ok := r.Results[k].(*ssa.UnOp); ok && u.Op == token.MUL {
+					if a, ok := u.X.(*ssa.Alloc); ok {
+						resLocal[k] = a
+					}
+				}
+			}
+		}
+	}
+	for k := 0; k < 2; k++ {
+		if direct[k] {
+			continue
+		}
+		okInit := false
+		if resLocal[k] != nil {
+			for _, r := range *resLocal[k].Referrers() {
+				if st, ok := r.(*ssa.Store); ok && st.Addr == ssa.Value(resLocal[k]) && st.Val == ext[k] && ext[k] != nil {
+					okInit = true
+				}
+			}
+		}
+		if !okInit {
+			obl.violate(kPass, fn.Pos(), fmt.Sprintf("result #%d is not the result #%d of the splitting helper", k, k), nil)
+		}
+	}
+	// what the wrapper appends itself, and the guards of its success returns
+	hookParts := map[string][]aff{}
+	_ = hookParts
+	ev := &affEval{c: c, fn: fn, isCell: func(ssa.Value) (string, bool) { return "", false }, zero: zero}
+	ev.hook = splitHook(c, fn, resLocal, amountF, accountF, partsF)
+	nSucc := 0
+	ev.visit = func(p *affPath) {
+		if p.ret == nil {
+			return
+		}
+		all := affZero()
+		for _, k := range []string{"res0", "res1", "tail0", "tail1"} {
+			for _, a := range p.notes[k] {
+				all = all.plus(a, 1)
+			}
+		}
+		zeroOK := all.isZero()
+		for _, g := range p.guards {
+			if g.op == "==0" && (all.equal(g.e) || all.plus(g.e, 1).isZero()) {
+				zeroOK = true
+			}
+		}
+		if !zeroOK || len(p.notes["tail0"])+len(p.notes["tail1"]) > 0 {
+			obl.violate(kPass, p.ret.Pos(), fmt.Sprintf("on path %s the wrapper adds parts amounting to `%s` to what the helper split (guards %v): funds appear from nowhere", p.trail(), all, p.guards), []string{p.trail()})
+		}
+		if needExact && isNilConst(p.ret.Results[len(p.ret.Results)-1]) {
+			nSucc++
+			okG := false
+			for _, g := range p.guards {
+				if g.op == "==0" && left != nil && (g.e.equal(left) || g.e.equal(affZero().plus(left, -1))) {
+					okG = true
+				}
+			}
+			if !okG {
+				obl.violate(kEpi, p.ret.Pos(), fmt.Sprintf("a success return is reached without the guard `uncovered amount = 0` (guards %v): a funding shorter than the requested amount is handed out as if it covered it", p.guards), []string{p.trail()})
+			}
+		}
+	}
+	if !ev.run(nil) {
+		obl.undecided(key("path-budget"), fn.Pos(), "too many paths")
+	}
+	if needExact && nSucc == 0 {
+		obl.undecided(key("success-paths"), fn.Pos(), "no success return found")
+	}
+}
+
+func fundingSplit(c *Ctx, rule string, fn *ssa.Function, name string, amountF, accountF, partsF *types.Var, zero *ssa.Global, needExact bool, leftIdx int) {
 	obl := newOblSet(c, rule)
 	defer obl.flush()
 	key := func(s string) string { return "Funding." + name + ":" + s }
@@ -84,6 +234,9 @@ func fundingSplit(c *Ctx, rule string, fn *ssa.Function, name string, amountF, a
 		isRange  bool
 		elemIdx  string // description of the value that indexes f.Parts in the body
 		elemAff  aff
+		base     ssa.Value // the slice the loop indexes: f.Parts, or f.Parts[low:]
+		baseD    string
+		low      ssa.Value // non-nil when base is f.Parts[low:]
 	}
 	loops := map[*ssa.BasicBlock]*loopInfo{}
 	for h := range heads {
@@ -118,19 +271,261 @@ func fundingSplit(c *Ctx, rule string, fn *ssa.Function, name string, amountF, a
 				}
 			}
 		}
+		// the slice indexed with the loop's index
+		var idxVal ssa.Value = li.idx
+		if li.isRange {
+			for _, r := range *li.idx.Referrers() {
+				if bo, ok := r.(*ssa.BinOp); ok && bo.Op == token.ADD && bo.X == ssa.Value(li.idx) {
+					idxVal = bo
+				}
+			}
+		}
+		for _, b := range fn.Blocks {
+			for _, ins := range b.Instrs {
+				if ia, ok := ins.(*ssa.IndexAddr); ok && ia.Index == idxVal {
+					root := ia.X
+					if sl, ok := root.(*ssa.Slice); ok && sl.High == nil && sl.Low != nil {
+						if descr(sl.X, 0) == fn.Params[0].Name()+".Parts" {
+							li.base, li.baseD, li.low = sl, descr(sl, 0), sl.Low
+						}
+					} else if descr(root, 0) == fn.Params[0].Name()+".Parts" {
+						li.base, li.baseD = root, descr(root, 0)
+					}
+				}
+			}
+		}
+		if li.base == nil {
+			obl.undecided(key("loop-structure"), fn.Pos(), fmt.Sprintf("the loop at block %d does not index the parts of the funding with its index", h.Index))
+			return
+		}
 		loops[h] = li
 	}
 	if len(loops) == 0 || resLocal[0] == nil || resLocal[1] == nil {
 		obl.undecided(key("loop-structure"), fn.Pos(), "no loop over the parts, or the two result locals were not found")
 		return
 	}
-	fName := fn.Params[0].Name()
 	amountSym := affSym(fn.Params[1].Name())
-	partAmount := func(li *loopInfo) aff { return affSym(fName + ".Parts[" + li.elemIdx + "].Amount") }
-	partAccount := func(li *loopInfo) string { return fName + ".Parts[" + li.elemIdx + "].Account" }
+	partAmount := func(li *loopInfo) aff { return affSym(li.baseD + "[" + li.elemIdx + "].Amount") }
+	partAccount := func(li *loopInfo) string { return li.baseD + "[" + li.elemIdx + "].Account" }
 
-	// bookkeeping of appended parts: amount and account per part value → array → result local
-	hook := func(p *affPath, ins ssa.Instruction) {
+	hook := splitHook(c, fn, resLocal, amountF, accountF, partsF)
+	sum := func(as []aff) aff {
+		t := affZero()
+		for _, a := range as {
+			t = t.plus(a, 1)
+		}
+		return t
+	}
+	// a ≡ b possibly using one `g == 0` guard of the path
+	eqUnder := func(p *affPath, a, b aff) bool {
+		d := a.plus(b, -1)
+		if d.isZero() {
+			return true
+		}
+		for _, g := range p.guards {
+			if g.op != "==0" {
+				continue
+			}
+			for _, k := range []int64{1, -1, 2, -2} {
+				if d.plus(g.e, -k).isZero() {
+					return true
+				}
+			}
+		}
+		return false
+	}
+	// exhausted: the path left loop li through the false side of `index < len(f.Parts)`
+	exhausted := func(p *affPath, li *loopInfo) bool {
+		for _, f := range p.facts {
+			bo, ok := f.X.(*ssa.BinOp)
+			if !ok || bo.Op != token.LSS {
+				continue
+			}
+			b, isB := constBool(f.Y)
+			if !isB || (b == f.Eq) != false {
+				continue
+			}
+			lenCall, ok := bo.Y.(*ssa.Call)
+			if !ok {
+				continue
+			}
+			if bi, ok := lenCall.Call.Value.(*ssa.Builtin); !ok || bi.Name() != "len" || descr(lenCall.Call.Args[0], 0) != li.baseD {
+				continue
+			}
+			if bo.X == ssa.Value(li.idx) || bo.X.Name() == li.elemIdx {
+				return true
+			}
+		}
+		return false
+	}
+	var ev *affEval
+	seen := map[string]int{}
+	visit := func(start *ssa.BasicBlock) func(p *affPath) {
+		return func(p *affPath) {
+			if len(p.strs["bad"]) > 0 {
+				obl.violate(kIter, fn.Pos(), "a result's part list is rebuilt from something else than itself plus freshly built parts (at "+strings.Join(p.strs["bad"], ", ")+")", []string{p.trail()})
+			}
+			res0, res1 := p.notes["res0"], p.notes["res1"]
+			accs := append(append([]string(nil), p.strs["res0"]...), p.strs["res1"]...)
+			all := sum(append(append([]aff(nil), res0...), res1...))
+			tails0, tails1 := p.notes["tail0"], p.notes["tail1"]
+			s, e := loops[start], loops[p.endHead]
+			switch {
+			case p.endHead != nil && s == nil: // prologue: entry → loop e
+				seen["prologue"]++
+				if e.money != nil {
+					if r, _ := ev.phiIn(p, e.money); !r.equal(amountSym) {
+						obl.violate(kPro, fn.Pos(), fmt.Sprintf("the loop starts with `%s` still to take instead of the requested amount", r), []string{p.trail()})
+					}
+				}
+				if i, _ := ev.phiIn(p, e.idx); !e.isRange && !i.isZero() {
+					obl.violate(kPro, fn.Pos(), fmt.Sprintf("the loop starts at part `%s` instead of part 0", i), []string{p.trail()})
+				}
+				if e.low != nil {
+					if lo := ev.of(p, e.low); !lo.isZero() {
+						obl.violate(kPro, fn.Pos(), fmt.Sprintf("the first loop ranges over the parts from `%s` on instead of from the first one", lo), []string{p.trail()})
+					}
+				}
+				if !eqUnder(p, all, affZero()) || len(tails0)+len(tails1) > 0 {
+					obl.violate(kPro, fn.Pos(), fmt.Sprintf("before the loops parts adding up to `%s` are handed out under guards %v: funds appear from nowhere", all, p.guards), []string{p.trail()})
+				}
+			case p.endHead != nil && s == e: // one iteration of loop s
+				seen["iteration"]++
+				A := partAmount(s)
+				if len(tails0)+len(tails1) > 0 {
+					obl.violate(kIter, fn.Pos(), "the rest of the funding is appended in an iteration that continues the loop: the parts after this one are handed out twice", []string{p.trail()})
+				}
+				if !eqUnder(p, all, A) {
+					obl.violate(kIter, fn.Pos(), fmt.Sprintf("on path %s the parts appended in one iteration add up to `%s` instead of the consumed part `%s`: the split creates or loses funds", p.trail(), all, A), []string{p.trail()})
+				}
+				for _, acc := range accs {
+					if acc != partAccount(s) {
+						obl.violate(kIter, fn.Pos(), fmt.Sprintf("a part built from part %s is attributed to `%s` instead of `%s`: the posting will debit another account than the one the funds were withdrawn from", s.elemIdx, acc, partAccount(s)), []string{p.trail()})
+					}
+				}
+				R := affZero()
+				if s.money != nil {
+					R = affSym(descr(s.money, 0))
+					r, _ := ev.phiIn(p, s.money)
+					if !eqUnder(p, R.plus(r, -1), sum(res0)) {
+						obl.violate(kIter, fn.Pos(), fmt.Sprintf("on path %s the amount still to take goes from `%s` to `%s` while `%s` is appended to the result: what is taken and what is counted as taken differ", p.trail(), R, r, sum(res0)), []string{p.trail()})
+					}
+				} else if len(res0) > 0 {
+					obl.violate(kIter, fn.Pos(), "a loop that does not carry the amount still to take appends to the result", []string{p.trail()})
+				}
+				if !s.isRange {
+					I := affSym(descr(s.idx, 0))
+					if i, _ := ev.phiIn(p, s.idx); !i.equal(I.plus(aff{"1": 1}, 1)) {
+						obl.violate(kIter, fn.Pos(), fmt.Sprintf("the part index goes from `%s` to `%s` (expected +1): a part is skipped or consumed twice", I, i), []string{p.trail()})
+					}
+				}
+				for _, t := range res0 {
+					okT := t.equal(R) || (t.equal(A) && impliesNonNegative(p.guards, R.plus(A, -1)))
+					if !okT {
+						obl.violate(kIter, fn.Pos(), fmt.Sprintf("on path %s `%s` is taken from a part while `%s` remains to be taken, under guards %v: more than requested (or than the part holds) can be taken", p.trail(), t, R, p.guards), []string{p.trail()})
+					}
+				}
+				for _, t := range res1 {
+					if !(t.equal(A) || (t.equal(A.plus(R, -1)) && impliesNonNegative(p.guards, t))) {
+						obl.violate(kIter, fn.Pos(), fmt.Sprintf("on path %s `%s` is left in the remainder under guards %v: not the part itself nor its provably non-negative excess", p.trail(), t, p.guards), []string{p.trail()})
+					}
+				}
+			case p.endHead != nil: // hand-over s → e
+				seen["hand-over"]++
+				if len(res0)+len(res1)+len(tails0)+len(tails1) > 0 {
+					obl.violate(kHand, fn.Pos(), fmt.Sprintf("parts adding up to `%s` are appended between two loops", all), []string{p.trail()})
+				}
+				j, _ := ev.phiIn(p, e.idx)
+				okStart := !e.isRange && e.low == nil && j.equal(s.elemAff)
+				if e.isRange && e.low != nil {
+					// `for … range f.Parts[i:]`: the tail starts at the previous loop's current part
+					okStart = ev.of(p, e.low).equal(s.elemAff)
+				}
+				if !okStart {
+					obl.violate(kHand, fn.Pos(), fmt.Sprintf("the next loop does not start at `%s`, where the previous one stopped: parts are skipped or consumed twice", s.elemAff), []string{p.trail()})
+				}
+				if e.money != nil {
+					want := amountSym
+					if s.money != nil {
+						want = affSym(descr(s.money, 0))
+					}
+					if r, _ := ev.phiIn(p, e.money); !r.equal(want) {
+						obl.violate(kHand, fn.Pos(), fmt.Sprintf("the next loop starts with `%s` still to take instead of `%s`", r, want), []string{p.trail()})
+					}
+				}
+			case p.ret != nil:
+				seen["return"]++
+				if leftIdx >= 0 && leftIdx < len(p.ret.Results) {
+					// the helper reports what it could not cover: the loop-carried amount itself
+					okLeft := false
+					for _, li := range loops {
+						if li.money != nil && ev.of(p, p.ret.Results[leftIdx]).equal(affSym(descr(li.money, 0))) {
+							okLeft = true
+						}
+					}
+					if !okLeft {
+						obl.violate(kEnd, p.ret.Pos(), fmt.Sprintf("the amount reported as not covered is `%s`, not the amount the loop still had to take", ev.of(p, p.ret.Results[leftIdx])), []string{p.trail()})
+					}
+				}
+				if s != nil {
+					// leaving loop s for good
+					tailOK := len(tails1) == 1 && len(tails0) == 0 && len(res0)+len(res1) == 0 && tails1[0].equal(s.elemAff)
+					if len(tails0)+len(tails1)+len(res0)+len(res1) > 0 && !tailOK {
+						obl.violate(kEnd, p.ret.Pos(), fmt.Sprintf("on the way out of the loop parts are appended that are not exactly the rest of the funding from the current part on (result: %v %v, remainder: %v %v, current part %s)", res0, tails0, res1, tails1, s.elemAff), []string{p.trail()})
+					}
+					if !tailOK && !exhausted(p, s) {
+						obl.violate(kEnd, p.ret.Pos(), "the function returns from inside the loop over the parts without having consumed (or handed back) the remaining parts: funds disappear", []string{p.trail()})
+					}
+				} else if len(res0)+len(res1)+len(tails0)+len(tails1) > 0 {
+					if !eqUnder(p, all, affZero()) {
+						obl.violate(kPro, p.ret.Pos(), "parts are handed out on a path that never enters the loops", []string{p.trail()})
+					}
+				}
+				if needExact && isNilConst(p.ret.Results[len(p.ret.Results)-1]) {
+					seen["success"]++
+					okG := false
+					for _, li := range loops {
+						if li.money == nil {
+							continue
+						}
+						R := affSym(descr(li.money, 0))
+						for _, g := range p.guards {
+							if g.op == "==0" && (g.e.equal(R) || g.e.equal(affZero().plus(R, -1))) {
+								okG = true
+							}
+						}
+					}
+					if !okG {
+						obl.violate(kEpi, p.ret.Pos(), fmt.Sprintf("a success return is reached without the guard `remaining = 0` (guards %v): a funding shorter than the requested amount is handed out as if it covered it", p.guards), []string{p.trail()})
+					}
+				}
+			default:
+				obl.undecided(key("segment"), fn.Pos(), fmt.Sprintf("unexpected segment from block %d", start.Index))
+			}
+		}
+	}
+	starts := []*ssa.BasicBlock{fn.Blocks[0]}
+	for _, b := range fn.Blocks {
+		if heads[b] {
+			starts = append(starts, b)
+		}
+	}
+	for _, s := range starts {
+		ev = &affEval{c: c, fn: fn, isCell: func(ssa.Value) (string, bool) { return "", false }, amountF: nil, zero: zero, heads: heads, hook: hook}
+		ev.visit = visit(s)
+		if !ev.run(s) {
+			obl.undecided(key("path-budget"), fn.Pos(), "too many paths")
+		}
+	}
+	if seen["prologue"] == 0 || seen["iteration"] == 0 || seen["return"] == 0 || (needExact && seen["success"] == 0) {
+		obl.undecided(key("segments-seen"), fn.Pos(), fmt.Sprintf("segments seen: %v", seen))
+	}
+}
+
+// splitHook: bookkeeping of appended parts: amount and account per part value → array → result local.
+func splitHook(c *Ctx, fn *ssa.Function, resLocal [2]*ssa.Alloc, amountF, accountF, partsF *types.Var) func(p *affPath, ins ssa.Instruction) {
+	fName := fn.Params[0].Name()
+	return func(p *affPath, ins ssa.Instruction) {
 		st, ok := ins.(*ssa.Store)
 		if !ok {
 			return
@@ -195,194 +590,6 @@ func fundingSplit(c *Ctx, rule string, fn *ssa.Function, name string, amountF, a
 				}
 			}
 		}
-	}
-	sum := func(as []aff) aff {
-		t := affZero()
-		for _, a := range as {
-			t = t.plus(a, 1)
-		}
-		return t
-	}
-	// a ≡ b possibly using one `g == 0` guard of the path
-	eqUnder := func(p *affPath, a, b aff) bool {
-		d := a.plus(b, -1)
-		if d.isZero() {
-			return true
-		}
-		for _, g := range p.guards {
-			if g.op != "==0" {
-				continue
-			}
-			for _, k := range []int64{1, -1, 2, -2} {
-				if d.plus(g.e, -k).isZero() {
-					return true
-				}
-			}
-		}
-		return false
-	}
-	// exhausted: the path left loop li through the false side of `index < len(f.Parts)`
-	exhausted := func(p *affPath, li *loopInfo) bool {
-		for _, f := range p.facts {
-			bo, ok := f.X.(*ssa.BinOp)
-			if !ok || bo.Op != token.LSS {
-				continue
-			}
-			b, isB := constBool(f.Y)
-			if !isB || (b == f.Eq) != false {
-				continue
-			}
-			lenCall, ok := bo.Y.(*ssa.Call)
-			if !ok {
-				continue
-			}
-			if bi, ok := lenCall.Call.Value.(*ssa.Builtin); !ok || bi.Name() != "len" || descr(lenCall.Call.Args[0], 0) != fName+".Parts" {
-				continue
-			}
-			if bo.X == ssa.Value(li.idx) || bo.X.Name() == li.elemIdx {
-				return true
-			}
-		}
-		return false
-	}
-	var ev *affEval
-	seen := map[string]int{}
-	visit := func(start *ssa.BasicBlock) func(p *affPath) {
-		return func(p *affPath) {
-			if len(p.strs["bad"]) > 0 {
-				obl.violate(kIter, fn.Pos(), "a result's part list is rebuilt from something else than itself plus freshly built parts (at "+strings.Join(p.strs["bad"], ", ")+")", []string{p.trail()})
-			}
-			res0, res1 := p.notes["res0"], p.notes["res1"]
-			accs := append(append([]string(nil), p.strs["res0"]...), p.strs["res1"]...)
-			all := sum(append(append([]aff(nil), res0...), res1...))
-			tails0, tails1 := p.notes["tail0"], p.notes["tail1"]
-			s, e := loops[start], loops[p.endHead]
-			switch {
-			case p.endHead != nil && s == nil: // prologue: entry → loop e
-				seen["prologue"]++
-				if e.money != nil {
-					if r, _ := ev.phiIn(p, e.money); !r.equal(amountSym) {
-						obl.violate(kPro, fn.Pos(), fmt.Sprintf("the loop starts with `%s` still to take instead of the requested amount", r), []string{p.trail()})
-					}
-				}
-				if i, _ := ev.phiIn(p, e.idx); !e.isRange && !i.isZero() {
-					obl.violate(kPro, fn.Pos(), fmt.Sprintf("the loop starts at part `%s` instead of part 0", i), []string{p.trail()})
-				}
-				if !eqUnder(p, all, affZero()) || len(tails0)+len(tails1) > 0 {
-					obl.violate(kPro, fn.Pos(), fmt.Sprintf("before the loops parts adding up to `%s` are handed out under guards %v: funds appear from nowhere", all, p.guards), []string{p.trail()})
-				}
-			case p.endHead != nil && s == e: // one iteration of loop s
-				seen["iteration"]++
-				A := partAmount(s)
-				if len(tails0)+len(tails1) > 0 {
-					obl.violate(kIter, fn.Pos(), "the rest of the funding is appended in an iteration that continues the loop: the parts after this one are handed out twice", []string{p.trail()})
-				}
-				if !eqUnder(p, all, A) {
-					obl.violate(kIter, fn.Pos(), fmt.Sprintf("on path %s the parts appended in one iteration add up to `%s` instead of the consumed part `%s`: the split creates or loses funds", p.trail(), all, A), []string{p.trail()})
-				}
-				for _, acc := range accs {
-					if acc != partAccount(s) {
-						obl.violate(kIter, fn.Pos(), fmt.Sprintf("a part built from part %s is attributed to `%s` instead of `%s`: the posting will debit another account than the one the funds were withdrawn from", s.elemIdx, acc, partAccount(s)), []string{p.trail()})
-					}
-				}
-				R := affZero()
-				if s.money != nil {
-					R = affSym(descr(s.money, 0))
-					r, _ := ev.phiIn(p, s.money)
-					if !eqUnder(p, R.plus(r, -1), sum(res0)) {
-						obl.violate(kIter, fn.Pos(), fmt.Sprintf("on path %s the amount still to take goes from `%s` to `%s` while `%s` is appended to the result: what is taken and what is counted as taken differ", p.trail(), R, r, sum(res0)), []string{p.trail()})
-					}
-				} else if len(res0) > 0 {
-					obl.violate(kIter, fn.Pos(), "a loop that does not carry the amount still to take appends to the result", []string{p.trail()})
-				}
-				if !s.isRange {
-					I := affSym(descr(s.idx, 0))
-					if i, _ := ev.phiIn(p, s.idx); !i.equal(I.plus(aff{"1": 1}, 1)) {
-						obl.violate(kIter, fn.Pos(), fmt.Sprintf("the part index goes from `%s` to `%s` (expected +1): a part is skipped or consumed twice", I, i), []string{p.trail()})
-					}
-				}
-				for _, t := range res0 {
-					okT := t.equal(R) || (t.equal(A) && impliesNonNegative(p.guards, R.plus(A, -1)))
-					if !okT {
-						obl.violate(kIter, fn.Pos(), fmt.Sprintf("on path %s `%s` is taken from a part while `%s` remains to be taken, under guards %v: more than requested (or than the part holds) can be taken", p.trail(), t, R, p.guards), []string{p.trail()})
-					}
-				}
-				for _, t := range res1 {
-					if !(t.equal(A) || (t.equal(A.plus(R, -1)) && impliesNonNegative(p.guards, t))) {
-						obl.violate(kIter, fn.Pos(), fmt.Sprintf("on path %s `%s` is left in the remainder under guards %v: not the part itself nor its provably non-negative excess", p.trail(), t, p.guards), []string{p.trail()})
-					}
-				}
-			case p.endHead != nil: // hand-over s → e
-				seen["hand-over"]++
-				if len(res0)+len(res1)+len(tails0)+len(tails1) > 0 {
-					obl.violate(kHand, fn.Pos(), fmt.Sprintf("parts adding up to `%s` are appended between two loops", all), []string{p.trail()})
-				}
-				if j, _ := ev.phiIn(p, e.idx); e.isRange || !j.equal(s.elemAff) {
-					obl.violate(kHand, fn.Pos(), fmt.Sprintf("the next loop starts at `%s` instead of `%s`, where the previous one stopped: parts are skipped or consumed twice", j, s.elemAff), []string{p.trail()})
-				}
-				if e.money != nil {
-					want := amountSym
-					if s.money != nil {
-						want = affSym(descr(s.money, 0))
-					}
-					if r, _ := ev.phiIn(p, e.money); !r.equal(want) {
-						obl.violate(kHand, fn.Pos(), fmt.Sprintf("the next loop starts with `%s` still to take instead of `%s`", r, want), []string{p.trail()})
-					}
-				}
-			case p.ret != nil:
-				seen["return"]++
-				if s != nil {
-					// leaving loop s for good
-					tailOK := len(tails1) == 1 && len(tails0) == 0 && len(res0)+len(res1) == 0 && tails1[0].equal(s.elemAff)
-					if len(tails0)+len(tails1)+len(res0)+len(res1) > 0 && !tailOK {
-						obl.violate(kEnd, p.ret.Pos(), fmt.Sprintf("on the way out of the loop parts are appended that are not exactly the rest of the funding from the current part on (result: %v %v, remainder: %v %v, current part %s)", res0, tails0, res1, tails1, s.elemAff), []string{p.trail()})
-					}
-					if !tailOK && !exhausted(p, s) {
-						obl.violate(kEnd, p.ret.Pos(), "the function returns from inside the loop over the parts without having consumed (or handed back) the remaining parts: funds disappear", []string{p.trail()})
-					}
-				} else if len(res0)+len(res1)+len(tails0)+len(tails1) > 0 {
-					if !eqUnder(p, all, affZero()) {
-						obl.violate(kPro, p.ret.Pos(), "parts are handed out on a path that never enters the loops", []string{p.trail()})
-					}
-				}
-				if needExact && isNilConst(p.ret.Results[len(p.ret.Results)-1]) {
-					seen["success"]++
-					okG := false
-					for _, li := range loops {
-						if li.money == nil {
-							continue
-						}
-						R := affSym(descr(li.money, 0))
-						for _, g := range p.guards {
-							if g.op == "==0" && (g.e.equal(R) || g.e.equal(affZero().plus(R, -1))) {
-								okG = true
-							}
-						}
-					}
-					if !okG {
-						obl.violate(kEpi, p.ret.Pos(), fmt.Sprintf("a success return is reached without the guard `remaining = 0` (guards %v): a funding shorter than the requested amount is handed out as if it covered it", p.guards), []string{p.trail()})
-					}
-				}
-			default:
-				obl.undecided(key("segment"), fn.Pos(), fmt.Sprintf("unexpected segment from block %d", start.Index))
-			}
-		}
-	}
-	starts := []*ssa.BasicBlock{fn.Blocks[0]}
-	for _, b := range fn.Blocks {
-		if heads[b] {
-			starts = append(starts, b)
-		}
-	}
-	for _, s := range starts {
-		ev = &affEval{c: c, fn: fn, isCell: func(ssa.Value) (string, bool) { return "", false }, amountF: nil, zero: zero, heads: heads, hook: hook}
-		ev.visit = visit(s)
-		if !ev.run(s) {
-			obl.undecided(key("path-budget"), fn.Pos(), "too many paths")
-		}
-	}
-	if seen["prologue"] == 0 || seen["iteration"] == 0 || seen["return"] == 0 || (needExact && seen["success"] == 0) {
-		obl.undecided(key("segments-seen"), fn.Pos(), fmt.Sprintf("segments seen: %v", seen))
 	}
 }
 
